@@ -7,9 +7,15 @@ from props.engine_family import FAM, DE
 MAPBV = r'std::map<std::__cxx11::basic_string<char, std::char_traits<char>, std::allocator<char> >, chaiscript::Boxed_Value, chaiscript::str_less'
 MAPTI = r'std::map<std::__cxx11::basic_string<char, std::char_traits<char>, std::allocator<char> >, chaiscript::Type_Info, chaiscript::str_less'
 ENTRIES = {1: ('add_global_const', DE + r'add_global_const\('), 2: ('add_global', DE + r'add_global\('), 3: ('add_global_no_throw', DE + r'add_global_no_throw\('),
-           4: ('set_global', DE + r'set_global\('), 5: ('add(Type_Info)', DE + r'add\(chaiscript::Type_Info const&'), 6: ('get_type', DE + r'get_type\(std::basic_string_view')}
+           4: ('set_global', DE + r'set_global\('), 5: ('add(Type_Info)', DE + r'add\(chaiscript::Type_Info const&'), 6: ('get_type', DE + r'get_type\(std::basic_string_view'),
+           7: ('get_function', DE + r'get_function\(std::basic_string_view'), 8: ('function_exists', DE + r'function_exists\('), 9: ('get_function_object', DE + r'get_function_object\(std::__cxx11')}
 STUBS = [r'std::map<.*>::(find|insert|insert_or_assign|erase|operator\[\]|count|emplace|clear|at)[<(]', r'std::_Rb_tree<.*>::_M_', r'name_conflict_error::', r'global_non_const::',
-         r'chaiscript::Boxed_Value::~Boxed_Value', r'chaiscript::Boxed_Value::Boxed_Value<', r'std::range_error::']
+         r'chaiscript::Boxed_Value::~Boxed_Value', r'chaiscript::Boxed_Value::Boxed_Value<', r'std::range_error::', r'chaiscript::utility::QuickFlatMap<.*>::(find|count)<']
+
+def msym(rx):
+    ms = [m for m, d in core.find_symbols(FAM, r'QuickFlatMap') if re.search(rx, m)]
+    if len(ms) != 1: raise core.BuildError('C13: %d symbols match %s' % (len(ms), rx))
+    return 'F_' + core.cname(ms[0])
 
 def harnesses(tier):
     roots = [rx for _, rx in ENTRIES.values()]
@@ -22,10 +28,14 @@ def harnesses(tier):
          'MAP_INSERT': core.csym(FAM, MAPBV + r'.*>::insert<'), 'TYPES_INSERT': core.csym(FAM, MAPTI + r'.*>::insert<'),
          'MAP_INSERT_OR_ASSIGN': core.csym(FAM, MAPBV + r'.*>::insert_or_assign<'),
          'E_ADD_GLOBAL_CONST': core.csym(FAM, ENTRIES[1][1]), 'E_ADD_GLOBAL': core.csym(FAM, ENTRIES[2][1]), 'E_ADD_GLOBAL_NO_THROW': core.csym(FAM, ENTRIES[3][1]),
-         'E_SET_GLOBAL': core.csym(FAM, ENTRIES[4][1]), 'E_ADD_TYPE': core.csym(FAM, ENTRIES[5][1]), 'E_GET_TYPE': core.csym(FAM, ENTRIES[6][1])}
+         'E_SET_GLOBAL': core.csym(FAM, ENTRIES[4][1]), 'E_ADD_TYPE': core.csym(FAM, ENTRIES[5][1]), 'E_GET_TYPE': core.csym(FAM, ENTRIES[6][1]),
+         'E_GET_FUNCTION': core.csym(FAM, ENTRIES[7][1]), 'E_FUNCTION_EXISTS': core.csym(FAM, ENTRIES[8][1]), 'E_GET_FUNCTION_OBJECT': core.csym(FAM, ENTRIES[9][1]),
+         'QFM_FIND_FUNS': msym(r'QuickFlatMap\w*St10shared_ptrISt6vector\w*9str_equalEE4findISt17basic_string_viewIcS5_EEEDaRKT_m$'),
+         'QFM_COUNT_FUNS': msym(r'QuickFlatMap\w*St10shared_ptrISt6vector\w*9str_equalEE5countISt17basic_string_viewIcS5_EEEmRKT_$'),
+         'QFM_FIND_BOXED': msym(r'QuickFlatMapINSt7__cxx1112basic_stringIcSt11char_traitsIcESaIcEEENS_11Boxed_ValueENS_9str_equalEE4findISt17basic_string_viewIcS5_EEEDaRKT_m$')}
     shapes = []
     for e, (nm, rx) in ENTRIES.items():
-        wit = ['witness: entry returned', 'witness: a shared table was accessed'] + (['witness: entry left by exception'] if e in (1, 2, 5, 6) else [])
+        wit = ['witness: entry returned', 'witness: a shared table was accessed'] + (['witness: entry left by exception'] if e in (1, 2, 5, 6, 9) else [])
         shapes.append(dict(d, ENTRY=e, _tag='entry=' + nm, _witness=tuple(wit)))
     return [Harness('K1.lock_discipline', FAM, roots, 'c13_lock.c', stubs=STUBS, shapes=shapes, opts=['--unwind', '4'], timeout=300, mem_gb=6, string_model=True,
                     defines={'STRING_LITERALS_OPAQUE': 1}, inputs=['name', 'objd'], note='table operations are stubs asserting the lock state; outcome of find/insert is symbolic (found / not found, inserted / conflict)')]
@@ -33,4 +43,4 @@ def harnesses(tier):
 ASSUMPTIONS = ['pthread_rwlock_* are a lock-state model; std::map member functions on engine tables are stubs that assert the lock mode and return arbitrary outcomes',
                'single-threaded symbolic execution: this shows a lock discipline (sufficient condition the code relies on), not absence of races by exploration']
 OUTSIDE = ['schedule exploration (no engine here can run libstdc++ shared_mutex under a scheduler)', 'races on element payloads reached through pointers read under the lock',
-           'entries not listed (function tables, conversions, use()): to be added']
+           'entries not listed (add_function, get_functions, get_function_objects, conversions, ChaiScript_Basic::use / eval): to be added']
